@@ -16,7 +16,9 @@
 
 #include <chrono>
 #include <fstream>
+#include <set>
 #include <sstream>
+#include <tuple>
 #include <unordered_set>
 
 #include "sched.hpp"
@@ -223,6 +225,19 @@ int mode_run(int argc, char** argv) {
   const double t0 = now_s();
   double last_stats = t0;
   uint64_t done = 0;
+  // reach of the single-preemption schedules: per program, the distinct (thread, operation, hook) cells at which a PB-1
+  // schedule preempted, against the number of hooks the simulated threads execute in the program's sequential schedule
+  std::set<std::tuple<int, int, int>> pb1_cells;
+  uint64_t pb1_program = UINT64_MAX, pb1_seq_hooks = 0;
+  auto pb1_flush = [&] {
+    if (!pb1_cells.empty() && pb1_seq_hooks > 0) {
+      stats().bump("pb1_programs", 1);
+      stats().bump("pb1_distinct_preemption_cells_hit", pb1_cells.size());
+      stats().bump("pb1_hooks_in_sequential_schedules", pb1_seq_hooks);
+    }
+    pb1_cells.clear();
+    pb1_seq_hooks = 0;
+  };
   for (uint64_t s = base; s < base + count; s++) {
     if (((s / S) % W) != w) continue;
     if (now_s() - t0 > limit) break;
@@ -236,6 +251,12 @@ int mode_run(int argc, char** argv) {
     set_die_context(s, eng->name());
     Result r = eng->run(c);
     if (s % S == 0 && S > 1) { eng->measured = thread_lengths(); eng->has_measured = true; }
+    if (S > 1) {
+      if (s / S != pb1_program) { pb1_flush(); pb1_program = s / S; }
+      if (s % S == 0) { pb1_seq_hooks = 0; const auto hc = thread_hook_counts(); for (size_t t = 1; t < hc.size(); t++) pb1_seq_hooks += hc[t]; }
+      else if (c.knob("strategy", 0) == ST_PB && c.knob("sparam", 0) == 1)
+        for (auto& e : r.realised) if (e.hook > 1) pb1_cells.insert({e.thread, e.op, e.hook});
+    }
     if (twice && r.ok) {
       Result r2 = eng->run(c);
       if (r2.hash != r.hash || r2.ok != r.ok) {
@@ -273,6 +294,7 @@ int mode_run(int argc, char** argv) {
     }
   }
   if (hashes) fclose(hashes);
+  pb1_flush();
   emit("STATS", stats_json(now_s() - t0, nontrivial, distinct.size(), known_hits));
   printf("DONE %llu\n", static_cast<unsigned long long>(done));
   fflush(stdout);
